@@ -253,6 +253,56 @@ pub fn verif_map<I: Iterator, U, F: FnMut(I::Item) -> U>(it: I, f: F) -> (r: ::c
 /// R16: the additive identity from which `Sum<f64>` folds (0.0 or -0.0 depending on the std version): an uninterpreted constant
 pub uninterp spec fn f64_sum_init_s() -> f64;
 #[verifier::external_body] pub fn f64_sum_init() -> (r: f64) ensures r == f64_sum_init_s() { ::core::iter::empty::<f64>().sum() }
+/// `Sum<f64>`: the left fold with `+` from the additive identity (the definition in core::iter::traits::accum)
+pub open spec fn f64_fold_sum_s(v: Seq<f64>) -> f64
+    decreases v.len()
+{
+    if v.len() == 0 { f64_sum_init_s() } else { f64_add_s(f64_fold_sum_s(v.drop_last()), v.last()) }
+}
+/// `it.map(f).sum::<f64>()` for a closure without mutable state (A-LIB-ITER)
+#[verifier::external_body]
+pub fn verif_map_sum<I: Iterator, F: FnMut(I::Item) -> f64>(it: I, f: F) -> (r: f64)
+    requires forall |k: int| 0 <= k < it.remaining().len() ==> #[trigger] f.requires((it.remaining()[k],)),
+    ensures exists |v: Seq<f64>| v.len() == it.remaining().len() && (forall |k: int| 0 <= k < v.len() ==> f.ensures((it.remaining()[k],), #[trigger] v[k])) && r == f64_fold_sum_s(v),
+{ it.map(f).sum::<f64>() }
+/// mathematical sum of a sequence of machine integers
+pub open spec fn usum(v: Seq<usize>) -> int
+    decreases v.len()
+{
+    if v.len() == 0 { 0 } else { usum(v.drop_last()) + v.last() as int }
+}
+/// `it.map(f).sum::<usize>()`: the mathematical sum when it fits (an overflowing sum panics in debug builds and wraps in release
+/// builds: not decided)
+pub uninterp spec fn usize_sum_result_s(v: Seq<usize>) -> usize;
+pub broadcast axiom fn ax_usize_sum_result(v: Seq<usize>)
+    requires usum(v) <= usize::MAX
+    ensures #[trigger] usize_sum_result_s(v) == usum(v);
+#[verifier::external_body]
+pub fn verif_map_sum_usize<I: Iterator, F: FnMut(I::Item) -> usize>(it: I, f: F) -> (r: usize)
+    requires forall |k: int| 0 <= k < it.remaining().len() ==> #[trigger] f.requires((it.remaining()[k],)),
+    ensures exists |v: Seq<usize>| v.len() == it.remaining().len() && (forall |k: int| 0 <= k < v.len() ==> f.ensures((it.remaining()[k],), #[trigger] v[k])) && r == usize_sum_result_s(v),
+{ it.map(f).sum::<usize>() }
+/// `it.count()`
+#[verifier::external_body]
+pub fn verif_count<I: Iterator>(it: I) -> (r: usize)
+    requires it.obeys_prophetic_iter_laws()
+    ensures r == it.remaining().len()
+{ it.count() }
+/// `it.any(f)`: true exactly when f answers true on some item (f without mutable state; short-circuiting is unobservable then).
+/// Stated through the sequence of answers so that a caller can name it (`choose`) and relate it to its own view of the items.
+#[verifier::external_body]
+pub fn verif_any<I: Iterator, F: FnMut(I::Item) -> bool>(it: I, f: F) -> (r: bool)
+    requires it.obeys_prophetic_iter_laws(), forall |k: int| 0 <= k < it.remaining().len() ==> #[trigger] f.requires((it.remaining()[k],)),
+    ensures exists |bs: Seq<bool>| bs.len() == it.remaining().len() && (forall |k: int| 0 <= k < bs.len() ==> f.ensures((it.remaining()[k],), #[trigger] bs[k]))
+        && r == (exists |k: int| 0 <= k < bs.len() && #[trigger] bs[k]),
+{ let mut it = it; it.any(f) }
+/// `it.all(f)`
+#[verifier::external_body]
+pub fn verif_all<I: Iterator, F: FnMut(I::Item) -> bool>(it: I, f: F) -> (r: bool)
+    requires it.obeys_prophetic_iter_laws(), forall |k: int| 0 <= k < it.remaining().len() ==> #[trigger] f.requires((it.remaining()[k],)),
+    ensures exists |bs: Seq<bool>| bs.len() == it.remaining().len() && (forall |k: int| 0 <= k < bs.len() ==> f.ensures((it.remaining()[k],), #[trigger] bs[k]))
+        && r == (forall |k: int| 0 <= k < bs.len() ==> #[trigger] bs[k]),
+{ let mut it = it; it.all(f) }
 /// `it.map(f).product::<f64>()`: an uninterpreted function of the sequence of factors
 pub uninterp spec fn f64_prod_s(v: Seq<f64>) -> f64;
 #[verifier::external_body]
@@ -283,6 +333,11 @@ pub fn verif_repeat_take<U, F: FnMut() -> U>(f: F, n: usize) -> (r: ::core::iter
 /// R3: `SmallVec::inline_size()` has no counterpart for Vec; its value is left arbitrary (A-SV)
 #[verifier::external_body]
 pub fn verif_smallvec_inline_size() -> (r: usize) { unimplemented!() }
+// A-LIB-OPTION: Option::is_some_and(f) is f's answer on the value, and false for None
+pub assume_specification<T, F: FnOnce(T) -> bool>[ ::core::option::Option::<T>::is_some_and ](o: Option<T>, f: F) -> (r: bool)
+    requires o is Some ==> f.requires((o->Some_0,)),
+    ensures o is None ==> !r, o is Some ==> f.ensures((o->Some_0,), r),
+;
 // A-LIB-OPTION: Option::filter keeps the value exactly when the predicate returns true
 pub assume_specification<T, P: FnOnce(&T) -> bool>[ ::core::option::Option::<T>::filter ](o: Option<T>, p: P) -> (r: Option<T>)
     requires o is Some ==> p.requires((&o->Some_0,)),
